@@ -28,7 +28,11 @@ def op_write(reg, v, via_cmd):
 
 OTHER = ['O', 'C', 'L',
          cmd('*ESR?', 'W:2:0'), cmd('STAT:OPER?', 'W:4:0'), cmd('STAT:QUES?', 'W:7:0'), cmd('STAT:PRES', 'W:7:0'),
-         cmd('*CLS', 'L'), cmd('SYST:ERR?', 'O'), cmd('*STB?', 'Z'), cmd('*ESE?', 'Z'), cmd('STAT:OPER:EVEN?', 'W:4:0')]
+         cmd('*CLS', 'L'), cmd('SYST:ERR?', 'O'), cmd('*STB?', 'Z'), cmd('*ESE?', 'Z'), cmd('STAT:OPER:EVEN?', 'W:4:0'),
+         # the remaining mandatory commands: *OPC sets the operation-complete event bit, the others leave status alone
+         cmd('*OPC', 'B:2:1'), cmd('*OPC?', 'Z'), cmd('*RST', 'Z'), cmd('*TST?', 'Z'), cmd('*WAI', 'Z'), cmd('*IDN?', 'Z'), cmd('*SRE?', 'Z'),
+         cmd('SYST:ERR:COUN?', 'Z'), cmd('SYST:VERS?', 'Z'), cmd('STAT:OPER:COND?', 'Z'), cmd('STAT:QUES:COND?', 'Z'),
+         cmd('STAT:OPER:ENAB?', 'Z'), cmd('STAT:QUES:ENAB?', 'Z'), cmd('STAT:QUES:EVEN?', 'W:7:0')]
 
 
 def alphabet3():
